@@ -51,6 +51,11 @@ FILE_FAULTS = {
     "list_of_scalars": ("json", "[1, 2]", None),
     "list_with_one_scalar": ("json", '[{"id": 7, "name": "z"}, 3]', None),
     "list_with_null": ("json", '[{"id": 7, "name": "z"}, null]', None),
+    "yaml_multi_document": ("yaml", "id: 1\nname: a\n---\nid: 2\nname: b\n", None),
+    "yaml_duplicate_key": ("yaml", "id: 1\nid: 2\nname: a\n", None),
+    "ini_duplicate_section": ("ini", "[s1]\nk = v\n[s1]\nk = w\n", None),
+    "json_trailing_garbage": ("json", '{"id": 1, "name": "a"} trailing', None),
+    "json_two_documents": ("json", '{"id": 1, "name": "a"}\n{"id": 2, "name": "b"}', None),
     "non_string_keys_yaml": ("yaml", "1: a\n2: b\n", None),
     "nested_non_string_keys_yaml": ("yaml", "id: 1\nsub:\n  1: a\n", None),
 }
@@ -315,7 +320,7 @@ def _inject(case):
 
 def run(tier, seed):
     r = core.Run(PROP, tier, seed, level="fault_enumeration")
-    r.rule = ("(1) 16 file fault kinds x position {only, first, middle, last} x output {stdout, -o new, -o existing sentinel} + 16 argument / "
+    r.rule = ("(1) 21 file fault kinds x position {only, first, middle, last} x output {stdout, -o new, -o existing sentinel} + 16 argument / "
               "generator fault kinds x output, as real subprocesses; fault-free runs json/yaml x output; (2) InjectedFault raised at EVERY call "
               "event k=1..N inside json_to_models for 3 inputs x {stdout, -o existing}; non-trivial = distinct (kind, position) / injection points")
     r.bounds = {"tier": tier}
